@@ -72,6 +72,13 @@ type prog struct {
 	realR []pkgbytes.Ranges
 	realF []types.References
 	vars  []*pvar
+	bres  []*bres // the byte results handed out so far, every one kept by the caller
+}
+
+// a result of RawBytes / Reference.RawBytes
+type bres struct {
+	b      []byte // the slice that was handed out
+	origin string
 }
 
 func slLit(s lsl) string {
@@ -180,6 +187,24 @@ func (p *prog) items() []string {
 	return out
 }
 
+func (p *prog) bitems() []string {
+	out := make([]string, len(p.bres))
+	for i, b := range p.bres {
+		out[i] = gal.Bytes(b.b)
+	}
+	return out
+}
+
+func bdelta(prev, now []string) string {
+	var d []string
+	for i, it := range now {
+		if i >= len(prev) || prev[i] != it {
+			d = append(d, fmt.Sprintf("(%s, %s)", gal.Nat(i), it))
+		}
+	}
+	return gal.List(d)
+}
+
 func delta(prev, now []string) string {
 	var d []string
 	for i, it := range now {
@@ -215,6 +240,9 @@ type msnap struct {
 	farrs [][]selem  // harness-made arrays of structs, every cell
 	rarrs [][]hrange // harness-made range arrays, every cell
 	vars  []vsnap
+	bres  [][]byte // byte results over their full capacity
+	blen  []int
+	arts  [][]byte // what the artifacts hold
 }
 
 func (p *prog) snapElems(rs types.References) []selem {
@@ -251,6 +279,13 @@ func (p *prog) snap() *msnap {
 			s.rhid = fromRealRanges(v.rngs[len(v.rngs):cap(v.rngs)])
 		}
 		m.vars = append(m.vars, s)
+	}
+	for _, b := range p.bres {
+		m.bres = append(m.bres, append([]byte(nil), b.b[:cap(b.b)]...))
+		m.blen = append(m.blen, len(b.b))
+	}
+	for _, a := range p.l.s.arts {
+		m.arts = append(m.arts, append([]byte(nil), a.content...))
 	}
 	return m
 }
@@ -339,10 +374,12 @@ func elemsChanged(what string, old, now []selem, sorter bool) string {
 // ---------- operations ----------
 
 type pop struct {
-	code string // by, ranges, exclude, sortmerge, resolve, rawbytes, refbytes, rngsm, copy
+	code string // by, ranges, exclude, sortmerge, resolve, rawbytes, refbytes, rngsm, copy, scribble
 	v, w int
 	i    int
 	art  *hart
+	via  int  // rawbytes: 0 = References.RawBytes, 1 = Data.RawBytes, 2 = Data.ConvertedBytes (no converter), 3 = MeasuredData.RawBytes
+	pat  byte // scribble: the byte the caller fills result b<v> with
 }
 
 func (o pop) String() string {
@@ -360,11 +397,13 @@ func (o pop) String() string {
 	case "resolve":
 		return fmt.Sprintf("v%d.Resolve()", o.v)
 	case "rawbytes":
-		return fmt.Sprintf("v%d.RawBytes()", o.v)
+		return fmt.Sprintf([]string{"v%d.RawBytes()", "(&Data{References: v%d}).RawBytes()", "(&Data{References: v%d}).ConvertedBytes()", "MeasuredData{Data: Data{References: v%d}}.RawBytes()"}[o.via], o.v)
 	case "refbytes":
 		return fmt.Sprintf("v%d[%d].RawBytes()", o.v, o.i)
 	case "rngsm":
 		return fmt.Sprintf("v%d.SortAndMerge() (Ranges)", o.v)
+	case "scribble":
+		return fmt.Sprintf("for i := range b%d { b%d[i] = %#x } (the caller overwrites a result it was given)", o.v, o.v, o.pat)
 	}
 	return "?"
 }
@@ -372,23 +411,25 @@ func (o pop) String() string {
 func (o pop) lit() string {
 	switch o.code {
 	case "copy":
-		return fmt.Sprintf("OCopy %s", gal.Nat(o.v))
+		return fmt.Sprintf("BOp (OCopy %s)", gal.Nat(o.v))
 	case "by":
-		return fmt.Sprintf("OBy %s %s", gal.Nat(o.v), artName(o.art))
+		return fmt.Sprintf("BOp (OBy %s %s)", gal.Nat(o.v), artName(o.art))
 	case "ranges":
-		return fmt.Sprintf("ORanges %s", gal.Nat(o.v))
+		return fmt.Sprintf("BOp (ORanges %s)", gal.Nat(o.v))
 	case "exclude":
-		return fmt.Sprintf("OExclude %s %s", gal.Nat(o.v), gal.Nat(o.w))
+		return fmt.Sprintf("BOp (OExclude %s %s)", gal.Nat(o.v), gal.Nat(o.w))
 	case "sortmerge":
-		return fmt.Sprintf("OSortMerge %s", gal.Nat(o.v))
+		return fmt.Sprintf("BOp (OSortMerge %s)", gal.Nat(o.v))
 	case "resolve":
-		return fmt.Sprintf("OResolve %s", gal.Nat(o.v))
+		return fmt.Sprintf("BOp (OResolve %s)", gal.Nat(o.v))
 	case "rawbytes":
-		return fmt.Sprintf("ORawBytes %s", gal.Nat(o.v))
+		return fmt.Sprintf("BOp (ORawBytes %s)", gal.Nat(o.v))
 	case "refbytes":
-		return fmt.Sprintf("ORefBytes %s %s", gal.Nat(o.v), gal.Nat(o.i))
+		return fmt.Sprintf("BOp (ORefBytes %s %s)", gal.Nat(o.v), gal.Nat(o.i))
 	case "rngsm":
-		return fmt.Sprintf("ORngSM %s", gal.Nat(o.v))
+		return fmt.Sprintf("BOp (ORngSM %s)", gal.Nat(o.v))
+	case "scribble":
+		return fmt.Sprintf("BScribble %s %d", gal.Nat(o.v), o.pat)
 	}
 	panic("unknown op")
 }
@@ -422,6 +463,13 @@ type pout struct {
 // runs the real code
 func (p *prog) exec(o pop) pout {
 	var r pout
+	if o.code == "scribble" {
+		b := p.bres[o.v].b
+		for i := range b {
+			b[i] = o.pat
+		}
+		return r
+	}
 	v := p.vars[o.v]
 	switch o.code {
 	case "copy":
@@ -445,7 +493,18 @@ func (p *prog) exec(o pop) pout {
 	case "resolve":
 		r.panicked, r.msg = gal.Recover(func() { r.err = v.refs.Resolve() })
 	case "rawbytes":
-		r.panicked, r.msg = gal.Recover(func() { r.bytes = v.refs.RawBytes() })
+		r.panicked, r.msg = gal.Recover(func() {
+			switch o.via {
+			case 1:
+				r.bytes = (&types.Data{References: v.refs}).RawBytes()
+			case 2:
+				r.bytes = (&types.Data{References: v.refs}).ConvertedBytes()
+			case 3:
+				r.bytes = types.MeasuredData{Data: types.Data{References: v.refs}}.RawBytes()
+			default:
+				r.bytes = v.refs.RawBytes()
+			}
+		})
 	case "refbytes":
 		r.panicked, r.msg = gal.Recover(func() { r.bytes = v.refs[o.i].RawBytes() })
 	case "rngsm":
@@ -467,6 +526,9 @@ func (o pop) resLit(r pout) string {
 	}
 	if r.panicked {
 		return "XPanic"
+	}
+	if o.code == "scribble" {
+		return "XNone"
 	}
 	if o.code == "resolve" {
 		return "XErr " + gal.Bool(r.err != nil)
@@ -515,6 +577,9 @@ func (p *prog) judgeResult(o pop, r pout, before, after *msnap) *verdict {
 		site = "fiano/pkg/bytes/range.go:Ranges.SortAndMerge"
 	}
 	fail := func(f string, a ...interface{}) *verdict { return &verdict{what: fmt.Sprintf(f, a...), site: site} }
+	if o.code == "scribble" {
+		return nil
+	}
 	recv := before.vars[o.v]
 	in := p.hrefs(recv.vis)
 	var res vsnap
@@ -528,7 +593,7 @@ func (p *prog) judgeResult(o pop, r pout, before, after *msnap) *verdict {
 		return v
 	}
 	switch o.code {
-	case "copy":
+	case "copy", "scribble":
 		return nil
 	case "by":
 		if r.panicked {
@@ -664,6 +729,7 @@ func (p *prog) judgeFrame(o pop, before, after *msnap) *verdict {
 	role := func(i int) string {
 		r := "the list " + fmt.Sprintf("v%d", i)
 		switch {
+		case o.code == "scribble":
 		case i == o.v && (o.code != "exclude" || o.w != o.v):
 			r = "its receiver " + fmt.Sprintf("v%d", i)
 		case o.code == "exclude" && i == o.w:
@@ -676,10 +742,33 @@ func (p *prog) judgeFrame(o pop, before, after *msnap) *verdict {
 	}
 	fail := func(f string, a ...interface{}) *verdict {
 		what := o.String()
-		if org := p.vars[o.v].origin; !strings.HasPrefix(org, "initial") {
+		site := siteData + ":" + o.String()
+		if o.code == "scribble" {
+			what += fmt.Sprintf(" (b%d is the result of %s)", o.v, p.bres[o.v].origin)
+			site = siteData + ":" + p.bres[o.v].origin + " (its result shares memory with something else)"
+		} else if org := p.vars[o.v].origin; !strings.HasPrefix(org, "initial") {
 			what += fmt.Sprintf(" (v%d is the result of %s)", o.v, org)
 		}
-		return &verdict{what: what + " altered " + fmt.Sprintf(f, a...), site: siteData + ":" + o.String()}
+		return &verdict{what: what + " altered " + fmt.Sprintf(f, a...), site: site}
+	}
+	// the bytes handed out earlier are the caller's: whatever is called later,
+	// they are what they were (and so is the spare capacity behind them)
+	for i := range before.bres {
+		if o.code == "scribble" && i == o.v {
+			continue
+		}
+		n := before.blen[i]
+		if !bytes.Equal(before.bres[i][:n], after.bres[i][:n]) {
+			return fail("the bytes handed out earlier as b%d (the result of %s): they are %x, were %x", i, p.bres[i].origin, after.bres[i][:n], before.bres[i][:n])
+		}
+		if !bytes.Equal(before.bres[i], after.bres[i]) {
+			return fail("the spare capacity behind the bytes handed out earlier as b%d (the result of %s)", i, p.bres[i].origin)
+		}
+	}
+	for i := range before.arts {
+		if !bytes.Equal(before.arts[i], after.arts[i]) {
+			return fail("the bytes of artifact %d: they are %x, were %x", p.l.s.arts[i].id, after.arts[i], before.arts[i])
+		}
 	}
 	for i := range before.vars {
 		b, a := before.vars[i], after.vars[i]
@@ -768,7 +857,7 @@ func sentinel() hrange {
 // of an array in the middle of a panicking sort.Slice is outside the model)
 func (g *gen) progScene(distinguishable bool) *scene {
 	for {
-		s := g.scene(distinguishable)
+		s := g.scene(distinguishable, false)
 		seen := map[string]bool{}
 		ok := true
 		for _, a := range s.arts {
@@ -932,6 +1021,7 @@ func (g *gen) program(s *scene, l *layout, nops int, fixed []pop) {
 	p := g.instantiate(l)
 	rarrs, farrs, env := l.lit()
 	prevItems := p.items()
+	prevB := p.bitems()
 	d := l.descr()
 	var opsDescr []string
 	var steps []string
@@ -946,16 +1036,20 @@ func (g *gen) program(s *scene, l *layout, nops int, fixed []pop) {
 		}
 		before := p.snap()
 		r := p.exec(o)
-		if r.newVar != nil {
+		switch {
+		case r.newVar != nil:
 			p.vars = append(p.vars, r.newVar)
 			opsDescr = append(opsDescr, fmt.Sprintf("v%d := %s", len(p.vars)-1, o.String()))
-		} else {
+		case (o.code == "rawbytes" || o.code == "refbytes") && !r.panicked:
+			p.bres = append(p.bres, &bres{b: r.bytes, origin: o.String()})
+			opsDescr = append(opsDescr, fmt.Sprintf("b%d := %s (kept by the caller)", len(p.bres)-1, o.String()))
+		default:
 			opsDescr = append(opsDescr, o.String())
 		}
 		after := p.snap()
-		now := p.items()
-		steps = append(steps, fmt.Sprintf("(%s, %s, %s)", o.lit(), o.resLit(r), delta(prevItems, now)))
-		prevItems = now
+		now, nowB := p.items(), p.bitems()
+		steps = append(steps, fmt.Sprintf("(%s, %s, %s, %s)", o.lit(), o.resLit(r), delta(prevItems, now), bdelta(prevB, nowB)))
+		prevItems, prevB = now, nowB
 		if o.code != "copy" {
 			nontrivial = true
 		}
@@ -1041,4 +1135,9 @@ func (g *gen) fixedPrograms() {
 		{code: "ranges", v: 2}, {code: "rngsm", v: 4}, {code: "by", v: 2, art: img}})
 	g.program(s, mk(), 6, []pop{{code: "by", v: 0, art: img}, {code: "sortmerge", v: 0}, {code: "rawbytes", v: 2}, {code: "refbytes", v: 0, i: 0},
 		{code: "resolve", v: 1}, {code: "exclude", v: 1, w: 0}})
+	// the bytes of one list, then of a shorter one, of the first again (through Data), of
+	// single references; the caller overwrites what it was given first; everything
+	// handed out is looked at again after every step
+	g.program(s, mk(), 9, []pop{{code: "rawbytes", v: 0}, {code: "rawbytes", v: 1}, {code: "rawbytes", v: 0, via: 2}, {code: "refbytes", v: 0, i: 1},
+		{code: "scribble", v: 0, pat: 0xAA}, {code: "rawbytes", v: 1, via: 1}, {code: "refbytes", v: 1, i: 1}, {code: "scribble", v: 3, pat: 0xBB}, {code: "rawbytes", v: 0, via: 3}})
 }
